@@ -98,7 +98,8 @@ def corpus(tier):
 
 SCRIPT = r"""
 import sys, json, hashlib
-sys.path.insert(0, '/repo/src')
+import os
+sys.path.insert(0, os.environ.get('VERIF_REPO', '/repo') + '/src')
 from picosvg.svg import SVG
 docs = json.load(open(sys.argv[1]))
 idx = json.loads(sys.argv[2])
@@ -117,7 +118,7 @@ def _subproc(args):
     path, idx, seed = args
     env = dict(os.environ)
     env["PYTHONHASHSEED"] = str(seed)
-    env["PYTHONPATH"] = "/repo/src"
+    env["PYTHONPATH"] = os.environ.get("VERIF_REPO", "/repo") + "/src"
     p = subprocess.run([sys.executable, "-c", SCRIPT, path, json.dumps(idx)], stdout=subprocess.PIPE, stderr=subprocess.PIPE, text=True, env=env, timeout=1200)
     if p.returncode != 0:
         return {"error": p.stderr[-500:]}
@@ -128,7 +129,7 @@ def _cli(args):
     (doc, opts), seed = args
     env = dict(os.environ)
     env["PYTHONHASHSEED"] = str(seed)
-    env["PYTHONPATH"] = "/repo/src"
+    env["PYTHONPATH"] = os.environ.get("VERIF_REPO", "/repo") + "/src"
     with tempfile.TemporaryDirectory() as td:
         f = os.path.join(td, "in.svg")
         open(f, "w").write(doc)
